@@ -150,6 +150,7 @@ func (e *Engine) VerifyFunc(fn *ssa.Function, spec *FuncSpec, lockMode bool) (re
 	fx.entry = &State{vars: map[string]string{}}
 	fx.nowEntry = "$now@entry"
 	fx.sv(fx.entry, "$now", SInt)
+	fx.ctx.Assert("(>= $now@entry 0)")
 	st := fx.entry.clone()
 	a := &act{fx: fx, fn: fn, id: 0, top: true, vals: map[ssa.Value]Val{}, spec: spec}
 	fx.stack = []*ssa.Function{fn}
@@ -214,7 +215,9 @@ func (e *Engine) VerifyFunc(fn *ssa.Function, spec *FuncSpec, lockMode bool) (re
 			reqs = append(append([]*Clause{}, reqs...), spec.LockRequires...)
 		}
 		for _, r := range reqs {
-			fx.ctx.Assert(fx.specTerm(r.X, env, st, fx.entry, spec.Pkg))
+			t := fx.specTerm(r.X, env, st, fx.entry, spec.Pkg)
+			fx.ctx.Assert(t)
+			fx.noteKnown(t)
 		}
 		for _, o := range spec.Observe {
 			v := fx.specVal(o.X, env, st, fx.entry)
@@ -307,7 +310,10 @@ func (fx *FX) addOblAt(kind, name, guard, goal string, pos interface{ IsValid() 
 		// several returns share one named obligation: keep one name, conjoin by listing separately
 		full = fmt.Sprintf("%s@ret%d", full, n)
 	}
-	o := &Obligation{Func: fx.key, Name: full, Kind: kind, Guard: guard, Goal: goal, NAsserts: len(fx.ctx.asserts), Note: note}
+	o := &Obligation{Func: fx.key, Name: full, Kind: kind, Guard: guard, Goal: fx.residualGoal(goal), NAsserts: len(fx.ctx.asserts), Note: note}
+	if o.Goal == "true" {
+		o.Verdict, o.Solver = "proved", "syntactic(identical to an assumed fact)"
+	}
 	fx.obls = append(fx.obls, o)
 	return o
 }
@@ -347,7 +353,7 @@ func (fx *FX) frameObls(spec *FuncSpec, env *SEnv, r retPoint, ri int) {
 		} else {
 			cond := And(excl...)
 			if k == SRef {
-				cond = And(fmt.Sprintf("(< (epoch o) %s)", fx.nowEntry), cond)
+				cond = And(fmt.Sprintf("(< (epoch o) %s)", fx.nowEntry), "(not (= o null))", cond)
 			}
 			goal = fmt.Sprintf("(forall ((o %s)) (=> %s (= (select %s o) (select %s o))))", k, cond, cur, old)
 		}
